@@ -160,6 +160,18 @@ func (d *driver) ops(w *world.World, depth int, path []string) []engine.Op {
 		w.App.CoinomicsKeeper.SetMaxSupply(ctx, sdk.NewCoin(world.Denom, w.App.BankKeeper.GetSupply(ctx, world.Denom).Amount))
 		return d.block(6*time.Second, p, res)
 	})
+	// a macro step: minting is switched off and a first disabled block passes - so that pauses of two
+	// and three blocks followed by a re-activation fit the quick depth
+	add("enable(false)+block(+6s)", func(p []string, res *engine.Result) string {
+		ctx := w.Ctx()
+		pr := w.App.CoinomicsKeeper.GetParams(ctx)
+		if !pr.EnableCoinomics {
+			return "skip"
+		}
+		pr.EnableCoinomics = false
+		w.App.CoinomicsKeeper.SetParams(ctx, pr)
+		return d.block(6*time.Second, p, res)
+	})
 	for _, t := range jumpTargets {
 		t := t
 		add("jump("+t.Format("2006-01-02T15:04:05")+")", func(p []string, res *engine.Result) string {
@@ -455,7 +467,7 @@ func Run(tier string) int {
 	res.Sample(map[string]any{"example_path": []string{"coef(100)", "block(+6s)", "max(supply+mint6s-1)", "block(+6s)"}})
 	return engine.Finish(res, engine.Meta{
 		Property: Prop, Tier: tier, Level: "model_checking", Start: start, Replayer: Replay,
-		Rule:     "all sequences <= depth over the alphabet (incl. the macro step max(supply)+block that runs into the cap, and jailing / unjailing a validator so that the bonded pool changes in the block's own staking end blocker); a block transition is the real app.EndBlock + virtual BeginBlock; non-trivial = a block that minted a non-zero formula amount, distinct by (bonded, coefficient, elapsed, year)",
+		Rule:     "all sequences <= depth over the alphabet (incl. the macro steps max(supply)+block that runs into the cap and enable(false)+block that starts a pause, and jailing / unjailing a validator so that the bonded pool changes in the block's own staking end blocker); a block transition is the real app.EndBlock + virtual BeginBlock; non-trivial = a block that minted a non-zero formula amount, distinct by (bonded, coefficient, elapsed, year)",
 		Bounds:   map[string]any{"depth": depth, "shards": 16},
 		Alphabet: alpha,
 		Assumptions: []string{
